@@ -1,17 +1,21 @@
 #ifndef VERIF_RT_H
 #define VERIF_RT_H
+/* runtime for the IR->C translation: CBMC mode and native (gcc) mode */
 #include <stdint.h>
 #ifdef __CPROVER__
 uint64_t nondet_poison_u64(void);
 static inline uint64_t verif_poison_u64(void){ return nondet_poison_u64(); }
 #define VERIF_ASSUME(c) __CPROVER_assume(c)
 #define VERIF_UNREACHABLE() __CPROVER_assert(0, "llvm unreachable reached")
+#define VERIF_LIBASSERT() __CPROVER_assert(0, "ARDUINOJSON_ASSERT failed in library code")
 #define VERIF_SHIFT(n,bits) __CPROVER_assert((n) < (bits), "shift too large")
 #else
 #include <stdlib.h>
+#include <stdio.h>
 static inline uint64_t verif_poison_u64(void){ return 0xDEADBEEFCAFEF00DULL; }
 #define VERIF_ASSUME(c) ((void)0)
 #define VERIF_UNREACHABLE() abort()
+#define VERIF_LIBASSERT() do { printf("LIBASSERT\n"); fflush(stdout); exit(1); } while (0)
 #define VERIF_SHIFT(n,bits) ((void)0)
 #endif
 #define VERIF_FPTOSI_OK(x,bits) (((bits) > 53 ? (x) >= -(double)(1ULL<<((bits)-1)) : (x) > -(double)(1ULL<<((bits)-1)) - 1.0) && (x) < (double)(1ULL<<((bits)-1)))
